@@ -414,7 +414,14 @@ func (d *DirectoryOutputHandler) Load(
 
 	// WaitGroup to wait for all goroutines to finish
 	var waitGroup sync.WaitGroup
-	errChan := make(chan error, len(tree.Children))
+	// Every file is downloaded by its own goroutine which may report one error.
+	// The channel is only drained after all of them have finished, so it must
+	// have room for one error per file.
+	fileCount := len(tree.Root.GetFiles())
+	for _, child := range tree.Children {
+		fileCount += len(child.GetFiles())
+	}
+	errChan := make(chan error, fileCount)
 	// Recursively load the directory structure
 	if err := d.loadDirectoryRecursive(ctx, dirPath, tree.Root, childrenMap, progress, &waitGroup, errChan); err != nil {
 		return fmt.Errorf("failed to load directory structure: %w", err)
